@@ -6,7 +6,7 @@ Local Open Scope Z_scope.
 
 Definition densify (c : dcfg) : dcfg :=
   mk_dcfg (c_wait_for_difop c) true (c_split_mode c) (c_split_angle c) (c_num_blks c) (c_min_dist c) (c_max_dist c)
-          (c_start_angle c) (c_end_angle c) (c_lidar_clock c) (c_ts_first c) (c_pkt_cb c) (c_tz c) (c_user c) (c_tail c) (c_from_file c).
+          (c_start_angle c) (c_end_angle c) (c_lidar_clock c) (c_ts_first c) (c_pkt_cb c) (c_tz c) (c_user c) (c_tail c) (c_from_file c) (c_dst c).
 
 Definition nonnil (l : list point) : bool := match l with [] => false | _ => true end.
 Definition dpts (o : list out) : list (list point) := map cl_points (clouds_of o).
